@@ -169,7 +169,10 @@ Definition type_ok (tc : tcase) : bool :=
       sorted_spec t jl out
       && Nat.leb (List.length out) (t_nbest t * List.length (assoc_idx (t_ms t)))
       && independent_b t out
-      && maximal_b t out
+      (* colsample < 1 pre-selects n_best // 2 features per sample: a feature may be left out although
+         fewer than n_best better ones are returned (documented approximation); order, distinctness,
+         count and pairwise independence of the FINAL list are required all the same *)
+      && (match tc_cs tc with Some _ => true | None => maximal_b t out end)
   end.
 
 Definition valid_nbest (c : c14case) : bool := (0 <? c_nbest c) && (c_nbest c <=? c_nfeat c + 1).
